@@ -24,8 +24,14 @@ ASSUMPTIONS = ["duration expressions contain no cancelling terms, so syntactic d
 REQUIRED_MONITORS = ["accepted_models", "rejected_models", "delay_argument_pairs"]
 BUDGET = {"quick": 40, "thorough": 600}
 
-ALLOWED = {"literal", "constant", "parameter", "fixed-input"}
+ALLOWED = {"literal", "constant", "parameter", "fixed-input", "parameter-array-element"}
 CATS = {
+    # elements of arrays (replaced by scalars under expand_vectors) and a variable that is an alias of an algebraic
+    # variable (replaced under detect_aliases): symbols that may occur in a duration and nowhere in a delayed expression
+    "parameter-array-element": lambda r: idx("pv", r.randint(1, 2)),
+    "state-array-element": lambda r: idx("sv", r.randint(1, 2)),
+    "input-array-element": lambda r: idx("uv", r.randint(1, 2)),
+    "alias-of-algebraic": lambda r: var("dw"),
     "literal": lambda r: num(round(r.uniform(0.5, 5), 2)),
     "constant": lambda r: var("c1"),
     "parameter": lambda r: var("p1"),
@@ -80,8 +86,9 @@ def gen_case(rng):
     tags = set()
     n = rng.randint(2, 3)
     decls = ["  Real x1, x2, a1, s1;", "  Real v[%d], w[%d];" % (n, n), "  input Real u1;",
-             "  input Real uf(fixed = true);", "  parameter Real p1 = 2.5;", "  constant Real c1 = 1.5;"]
-    eqs = ["  der(s1) = -s1 + u1;", "  a1 = 2 * s1 + uf;"]
+             "  input Real uf(fixed = true);", "  parameter Real p1 = 2.5;", "  constant Real c1 = 1.5;",
+             "  parameter Real pv[2] = {1.5, 2.5};", "  Real sv[2];", "  input Real uv[2];", "  Real dw;"]
+    eqs = ["  der(s1) = -s1 + u1;", "  a1 = 2 * s1 + uf;", "  der(sv) = {1, 2};", "  dw = a1;"]
     delays = []          # (expr, dur, cats, loop or None)
     nd = rng.randint(1, 3)
     ycount = 0
@@ -119,6 +126,9 @@ def gen_case(rng):
     if rng.random() < 0.3:
         options["cache"] = True
         tags.add("option:cache(repeated calls)")
+    if rng.random() < 0.25:
+        options["detect_aliases"] = True
+        tags.add("option:detect_aliases")
     if rng.random() < 0.4:
         options["expand_vectors"] = True
         tags.add("option:expand_vectors")
@@ -137,6 +147,10 @@ def point(rng, n):
     env["der(s1)"] = round(rng.uniform(-2, 2), 3)
     for nm in ("v", "w"):
         env[nm] = np.array([round(rng.uniform(0.5, 4), 3) for _ in range(n)])
+    for nm in ("pv", "sv", "uv"):
+        env[nm] = np.array([round(rng.uniform(0.5, 4), 3) for _ in range(2)])
+    env["der(sv)"] = np.array([1.0, 2.0])
+    env["dw"] = env["a1"]
     return env
 
 
